@@ -142,7 +142,8 @@ def simp_case(args):
 def partially_reduced_inputs(model, inputs):
     """Forms the normal-form pass may receive when the rewriter gives up: NOT fully reduced -- any rule
     input with an n-ary root, plus sums/products that still carry several constants."""
-    out = [(t, l) for (t, l) in inputs if t[0] in spec.NARY and not l.startswith("random(")]
+    out = [(t, l) for (t, l) in inputs if t[0] not in spec.LEAF and not l.startswith("random(")
+           and not l.startswith("fold")]
     v, w = ("Variable", "v"), ("Variable", "w")
     for k in spec.NARY:
         if k not in model.classes:
@@ -171,7 +172,8 @@ def normal_form_case(args):
     outs = run_paths(model, thunk, max_paths=2, max_steps=4000000, generic_only=True)
     o = outs[0]
     if o["kind"] == "raise":
-        return {"kind": "raise", "exc": exc_name(o["exc"])}
+        from ..harness import exc_origin
+        return {"kind": "raise", "exc": exc_name(o["exc"]), "origin": exc_origin(o["exc"])}
     if o["kind"] != "return":
         return {"kind": "unsupported", "msg": o["msg"]}
     if o["value"] is None:
@@ -213,7 +215,7 @@ def check_normal_form_pass(rep, model, inputs):
                 d[1] += 1
     for construct, (n, good) in sorted(per.items()):
         if n == good:
-            rep.ok("C08.normal-form-pass", construct, "", f"{n} not fully reduced forms (every n-ary rule input; sums and "
+            rep.ok("C08.normal-form-pass", construct, "", f"{n} not fully reduced forms (every rule input of this class; sums and "
                    f"products still carrying several constants): the pass alone preserves domain and value", cases=n)
 
 
